@@ -133,8 +133,14 @@ func C16_Legacy() {
 		h.doSet(vChoice("key2", n))
 		h.doCommit()
 	case 3: // roll back to a legacy version (only meaningful with two retained legacy versions + new ones)
-		h.doSet(vChoice("key", n))
-		h.doCommit()
+		if vChoice("nowrite", 2) == 1 {
+			// the new version on top is a commit without writes (its root is the re-saved legacy root)
+			h.doCommit()
+			vCover("rollback-over-a-commit-without-writes")
+		} else {
+			h.doSet(vChoice("key", n))
+			h.doCommit()
+		}
 		target := h.first + int64(vChoice("target", int(L-h.first+1)))
 		err := h.tree.LoadVersionForOverwriting(target)
 		vAssert(err == nil, "c16:loadversionforoverwriting-err")
@@ -150,8 +156,10 @@ func C16_Legacy() {
 		h.resetWorkToLatest()
 		h.checkVersions("c16:after-rollback")
 		h.audit()
-		h.doSet(vChoice("key2", n))
-		h.doCommit()
+		if vChoice("redo", 2) == 1 {
+			h.doSet(vChoice("key2", n))
+			h.doCommit()
+		}
 		vCover("rollback-to-legacy")
 	case 4: // nothing new
 	}
